@@ -38,18 +38,20 @@ type Block struct {
 	garbage bool
 	defined []bool
 
-	kind     BlockKind
-	typ      types.Type // element type for typed heap objects; nil => noscan/untyped
-	nelem    int
-	noscan   bool
-	owner    string
-	frozen   bool
-	released bool
-	readonly bool
-	epoch    int
-	name     string
-	seq      int   // allocation sequence number within owner class
-	sizeTerm *Term // symbolic logical size (physical storage grows on demand); nil = concrete
+	kind      BlockKind
+	typ       types.Type // element type for typed heap objects; nil => noscan/untyped
+	nelem     int
+	noscan    bool
+	owner     string
+	frozen    bool
+	released  bool
+	readonly  bool
+	epoch     int
+	name      string
+	seq       int    // allocation sequence number within owner class
+	published bool   // reachable through an atomic pointer: immutable from then on (copy-on-write discipline)
+	guard     uint64 // address of the mutex that must be held to access this block / map (0 = none)
+	sizeTerm  *Term  // symbolic logical size (physical storage grows on demand); nil = concrete
 
 	fn       *ssa.Function
 	bindings []Value
